@@ -120,6 +120,32 @@ theorem isLiquid_iff (v : Vial ℝ) : isLiquid v = true ↔ v.sigma = 0 := by
 /-- the temperature a liquid vial has after the sensible update -/
 noncomputable def midT (p : Params ℝ) (q : ℝ) (v : Vial ℝ) : ℝ := liquidTemp p.c p.dt q v.T
 
+/-- transition of a LIQUID vial (`σ = 0`) with its heat flow `q` EXPLICIT: it either nucleates at
+the temperature `T + q/hl·dt` it has after this step's sensible update … or stays liquid -/
+theorem vfinal_liquid (p : Params ℝ) (isCN : Bool) (tk : ℝ) (as : Bool) (v : Vial ℝ) (q kb die : ℝ)
+    (hl : v.sigma = 0) :
+    let v' := vialFinal p tk isCN (vialMid p tk as v q) kb die
+    (midT p q v < p.c.T_eq_l ∧
+        v'.sigma = sigmaJump p.initIce p.c (midT p q v) ∧
+        v'.tNuc = some (tk + p.dt) ∧ v'.TNuc = some (midT p q v)) ∨
+    (v'.sigma = 0 ∧ v'.tNuc = v.tNuc ∧ v'.TNuc = v.TNuc) := by
+  intro v'
+  have hliq : isLiquid v = true := (isLiquid_iff v).mpr hl
+  have hm : vialMid p tk as v q
+      = ⟨{ v with T := liquidTemp p.c p.dt q v.T, tSol := tSolUpdate p tk as v }, true⟩ := by
+    simp [vialMid, hliq]
+  by_cases hn : nucleates p isCN (vialMid p tk as v q) kb die = true
+  · left
+    refine ⟨?_, ?_, ?_, ?_⟩
+    · rw [hm] at hn
+      simp only [nucleates, isCand, Bool.and_eq_true, decide_eq_true_eq] at hn
+      exact hn.1.2
+    all_goals (simp only [v']; rw [vialFinal, if_pos hn, hm]; try (first | rfl | simp [midT]))
+  · right
+    simp only [v']
+    rw [vialFinal, if_neg hn, hm]
+    exact ⟨hl, rfl, rfl⟩
+
 /-- transition of a LIQUID vial (`σ = 0`): it either nucleates … or stays liquid -/
 theorem vstep_liquid {p : Params ℝ} {isCN : Bool} {k : Nat} {v v' : Vial ℝ}
     (h : VStep p isCN k v v') (hl : v.sigma = 0) :
@@ -128,20 +154,9 @@ theorem vstep_liquid {p : Params ℝ} {isCN : Bool} {k : Nat} {v v' : Vial ℝ}
         v'.tNuc = some (timeAt p.dt k + p.dt) ∧ v'.TNuc = some (midT p q v)) ∨
     (v'.sigma = 0 ∧ v'.tNuc = v.tNuc ∧ v'.TNuc = v.TNuc) := by
   obtain ⟨as, q, kb, die, rfl⟩ := h
-  have hliq : isLiquid v = true := (isLiquid_iff v).mpr hl
-  have hm : vialMid p (timeAt p.dt k) as v q
-      = ⟨{ v with T := liquidTemp p.c p.dt q v.T, tSol := tSolUpdate p (timeAt p.dt k) as v }, true⟩ := by
-    simp [vialMid, hliq]
-  by_cases hn : nucleates p isCN (vialMid p (timeAt p.dt k) as v q) kb die = true
-  · left
-    refine ⟨q, ?_, ?_, ?_, ?_⟩
-    · rw [hm] at hn
-      simp only [nucleates, isCand, Bool.and_eq_true, decide_eq_true_eq] at hn
-      exact hn.1.2
-    all_goals (rw [vialFinal, if_pos hn, hm]; try (first | rfl | simp [midT]))
-  · right
-    rw [vialFinal, if_neg hn, hm]
-    exact ⟨hl, rfl, rfl⟩
+  rcases vfinal_liquid p isCN (timeAt p.dt k) as v q kb die hl with h | h
+  · exact Or.inl ⟨q, h⟩
+  · exact Or.inr h
 
 /-- transition of a vial that contains ice (`σ ≠ 0`): the nucleation record is kept -/
 theorem vstep_solid {p : Params ℝ} {isCN : Bool} {k : Nat} {v v' : Vial ℝ}
